@@ -57,6 +57,17 @@ func shards(n int, base Child) []Child {
 	return out
 }
 
+// shardsVar is shards() with the CPU count varied over the shards (1 mostly, plus 2, 3, 5, 6, 7): code that consults
+// runtime.NumCPU() anywhere underneath sees power-of-two and other counts even in checks about sequential functions.
+func shardsVar(n int, base Child) []Child {
+	out := shards(n, base)
+	pat := []int{1, 3, 1, 2, 1, 5, 1, 6, 1, 1, 7, 1, 1, 3, 1, 5}
+	for i := range out {
+		out[i].NCPU = pat[i%len(pat)]
+	}
+	return out
+}
+
 func pick(tier string, q, t int) int {
 	if tier == "thorough" {
 		return t
